@@ -143,7 +143,10 @@ class CompilerProcess:
         chars, n = self.schema_chars()
         # calibration: building the ply tables costs ~90 k steps per (imported) file,
         # lexing+parsing < 40 steps per character; a file may be parsed once per importer
-        return min(MAX_BUDGET, 3_000_000 + 300_000 * max(1, n) + 100 * (chars + extra_chars) * max(1, min(n, 4)))
+        # (+ a quadratic term: duplicate checks rebuild a dictionary per pushed member, so an enum
+        # or message with n members costs ~n^2 steps; it is negligible for ordinary files)
+        lines_est = (chars + extra_chars) // 16
+        return min(MAX_BUDGET, 3_000_000 + 300_000 * max(1, n) + 100 * (chars + extra_chars) * max(1, min(n, 4)) + 2 * lines_est * lines_est)
 
     def budget_render(self, proto, optimize: bool) -> int:
         """Budget from a private walk of the tree (no bitproto method is called,
